@@ -1,6 +1,6 @@
 From Coq Require Import ZArith List String.
 From DRX Require Import Py.PyBytes Py.Val.
-From DRX Require Model.ScoreIO Model.RiffIO Model.IndexIO Model.XtractIO Model.SndIO Model.VwscIO Model.ClutIO Model.TextIO Model.CastIO Model.BitdIO Model.DirIO Model.ConstIO.
+From DRX Require Model.ScoreIO Model.RiffIO Model.IndexIO Model.XtractIO Model.SndIO Model.VwscIO Model.ClutIO Model.TextIO Model.CastIO Model.BitdIO Model.DirIO Model.ConstIO Model.LingoIO.
 Import ListNotations.
 Open Scope string_scope.
 
@@ -34,7 +34,8 @@ Definition table : list (string * (val -> val)) := [
   ("parse_dir", Model.DirIO.run_parse_dir);
   ("const_string", Model.ConstIO.run_const_string);
   ("const_int", Model.ConstIO.run_const_int);
-  ("float80", Model.ConstIO.run_float80)
+  ("float80", Model.ConstIO.run_float80);
+  ("decompile", Model.LingoIO.run_decompile)
 ].
 
 Fixpoint lookup (n : string) (t : list (string * (val -> val))) : option (val -> val) :=
